@@ -13,12 +13,27 @@
     The text-level step (the appended DIMACS line parses to exactly the blocking
     clause) is C27_update_file_blocks; that projections of models of the compiled
     formula are exactly the valid sequences is C01-C03; RandomGen's
-    without-replacement loop is C06_loop_exhausts.  What is NOT covered by a
-    theorem here: the statement that two different object-level solutions print
-    identically only for copies of a weighted level of an uncrossed factor - it is
-    decided per run by the harness (multiplicities against the oracle). *)
+    without-replacement loop is C06_loop_exhausts.
+
+    The multiplicity clause - a name-level sequence appears more than once only as
+    often as the weights of an uncrossed factor's levels allow - is a theorem about
+    the reference semantics (second half of this file, Sample/NameMultiplicity.v on
+    top of Front/DesugarSem.v / C23): the object level of a design with a weighted
+    free factor [f] is the desugared form [widen f (list_sum ws) S], the sequence
+    the user sees is the image under [proj_seq f ws], and in ANY duplicate-free
+    list of valid object-level sequences (what C09_returned_distinct gives for the
+    loop) a name-level sequence [s] is the image of at most
+    (product of the weights of the levels in row [f] of [s]) elements, of none if
+    [s] is not valid for [S], and of exactly that many when the list is exhaustive
+    (the case "fewer than requested" of C09_returned_min_requested_available);
+    with several weighted free factors the products multiply.  What remains decided
+    per run by the harness (multiplicities against the oracle): that the real
+    pipeline's object level IS this desugared form (c23.py compares [widen] / [orig]
+    with the twin program; C01-C03 tie solutions to valid sequences) and the
+    multiplicities the real samplers show. *)
 From Coq Require Import ZArith List Bool.
 From SP Require Import Base.Sat Text.Dimacs Text.SolverIOProofs Sample.Iterate Sample.IterateProofs.
+From SP Require Design.Sem Front.DesugarSem Sample.NameMultiplicity.
 Import ListNotations.
 Open Scope Z_scope.
 
@@ -66,3 +81,111 @@ Definition stub (f : cnf) : option asg :=
   end.
 Example C09_loop_runs : returned stub 2 5 [[1; 2]] = [[1; -2]; [-1; 2]; [1; 2]].
 Proof. reflexivity. Qed.
+
+(** * Name-level multiplicity (reference semantics) *)
+Section NameLevel.
+Import Design.Sem Front.DesugarSem Sample.NameMultiplicity.
+Local Open Scope nat_scope.
+
+(** Counting.  A duplicate-free list [l] of elements satisfying [P] is no longer than a
+    duplicate-free enumeration [fib] of [P] - and as long if it holds every element of [P] ... *)
+Theorem C09_nodup_count_bound :
+  forall (A : Type) (P : A -> bool) (l fib : list A),
+    NoDup l -> (forall x, In x l -> P x = true) ->
+    NoDup fib -> (forall x, P x = true <-> In x fib) ->
+    length l <= length fib /\
+    ((forall x, P x = true -> In x l) -> length l = length fib).
+Proof. exact (@nodup_count_bound). Qed.
+Print Assumptions C09_nodup_count_bound.
+
+(** ... and image by image: for every [y], [l] has at most as many elements with [g x = y]
+    as the whole enumeration. *)
+Theorem C09_nodup_fibre_count_bound :
+  forall (A B : Type) (P : A -> bool) (g : A -> B) (eqb : B -> B -> bool) (l fib : list A),
+    (forall a b, eqb a b = true <-> a = b) ->
+    NoDup l -> (forall x, In x l -> P x = true) ->
+    NoDup fib -> (forall x, P x = true <-> In x fib) ->
+    forall y,
+      length (filter (fun x => eqb (g x) y) l) <= length (filter (fun x => eqb (g x) y) fib) /\
+      ((forall x, P x = true -> In x l) ->
+       length (filter (fun x => eqb (g x) y) l) = length (filter (fun x => eqb (g x) y) fib)).
+Proof. exact (@nodup_fibre_count_bound). Qed.
+Print Assumptions C09_nodup_fibre_count_bound.
+
+(** [tseq_eqb] decides equality of sequences; [row_levels row] are the levels of a row, and
+    the row of a non-derived factor in a valid sequence is [map Some] of them. *)
+Theorem C09_tseq_eqb_eq : forall a b : tseq, tseq_eqb a b = true <-> a = b.
+Proof. exact tseq_eqb_eq. Qed.
+Print Assumptions C09_tseq_eqb_eq.
+
+Theorem C09_valid_row :
+  forall S s f fd,
+    valid_b S s = true -> nth_error (s_factors S) f = Some fd -> f_derived fd = None ->
+    f < length s /\ nth f s [] = map Some (row_levels (nth f s [])) /\
+    (forall x, In x (row_levels (nth f s [])) -> x < f_nlevels fd).
+Proof. exact valid_row. Qed.
+Print Assumptions C09_valid_row.
+
+(** One weighted free factor [f] with weights [ws] (hypotheses of C23_desugared_fibre).
+    [sols]: any duplicate-free list of valid sequences of the desugared form.  The number of
+    its elements reported as the name-level sequence [s] is at most the product of the weights
+    of the levels in row [f] of [s] if [s] is valid for [S], and 0 otherwise; with equality
+    if [sols] holds every valid sequence of the desugared form. *)
+Theorem C09_name_multiplicity :
+  forall S f ws fd,
+    free_b S f = true -> nth_error (s_factors S) f = Some fd -> length ws = f_nlevels fd ->
+    forall sols : list tseq,
+      NoDup sols -> (forall x, In x sols -> valid_b (widen f (list_sum ws) S) x = true) ->
+      forall s,
+        length (filter (fun x => tseq_eqb (proj_seq f ws x) s) sols)
+        <= (if valid_b S s then fold_right (fun l acc => nth l ws 0 * acc) 1 (row_levels (nth f s [])) else 0) /\
+        ((forall x, valid_b (widen f (list_sum ws) S) x = true -> In x sols) ->
+         length (filter (fun x => tseq_eqb (proj_seq f ws x) s) sols)
+         = (if valid_b S s then fold_right (fun l acc => nth l ws 0 * acc) 1 (row_levels (nth f s [])) else 0)).
+Proof. exact name_multiplicity. Qed.
+Print Assumptions C09_name_multiplicity.
+
+(** Several weighted free factors [fs = [(f1, ws1); ...]] (distinct, each free in [S], one
+    weight per level: [weighted_free]); [widen_all] widens them one after the other, [proj_all]
+    replaces the copies in each of their rows, [mult_all fs s] is the product over the factors
+    of the products of the weights in their rows of [s]. *)
+Theorem C09_name_multiplicity_all :
+  forall fs S,
+    weighted_free S fs ->
+    forall sols : list tseq,
+      NoDup sols -> (forall x, In x sols -> valid_b (widen_all fs S) x = true) ->
+      forall s,
+        length (filter (fun x => tseq_eqb (proj_all fs x) s) sols) <= (if valid_b S s then mult_all fs s else 0) /\
+        ((forall x, valid_b (widen_all fs S) x = true -> In x sols) ->
+         length (filter (fun x => tseq_eqb (proj_all fs x) s) sols) = (if valid_b S s then mult_all fs s else 0)).
+Proof. exact name_multiplicity_all. Qed.
+Print Assumptions C09_name_multiplicity_all.
+
+(** The example of C23_example_sem (W = [w0 x 2, w1] outside the crossing [B], 2 trials): the 18
+    valid sequences of the desugared form are enumerated without duplicates; the theorem applies
+    to them; the 8 valid name-level sequences are reported 4, 4, 2, 2, 2, 2, 1, 1 times, which
+    are exactly their multiplicities (sum 18); an invalid sequence has multiplicity 0. *)
+Example C09_example_name_multiplicity :
+  let W := widen 0 (list_sum [2; 1]) ex_orig_sem in
+  free_b ex_orig_sem 0 = true /\
+  NoDup (all_valid W) /\ (forall x, In x (all_valid W) -> valid_b W x = true) /\ length (all_valid W) = 18 /\
+  (forall s, count_over 0 [2; 1] s (all_valid W) <= name_mult ex_orig_sem 0 [2; 1] s) /\
+  map (fun s => count_over 0 [2; 1] s (all_valid W)) (all_valid ex_orig_sem) = [4; 4; 2; 2; 2; 2; 1; 1] /\
+  map (name_mult ex_orig_sem 0 [2; 1]) (all_valid ex_orig_sem) = [4; 4; 2; 2; 2; 2; 1; 1] /\
+  name_mult ex_orig_sem 0 [2; 1] [[Some 0; Some 0]; [Some 0; Some 0]] = 0.
+Proof. exact ex_name_multiplicity. Qed.
+
+(** Two weighted free factors V = [v0 x 2, v1], W = [w0, w1 x 2] outside the crossing [B]:
+    32 valid name-level sequences, 162 in the desugared form, multiplicities from 1 to 4 x 4. *)
+Example C09_example_two_weighted :
+  let W := widen_all ex_two_weights ex_two_weighted_sem in
+  weighted_free ex_two_weighted_sem ex_two_weights /\
+  NoDup (all_valid W) /\ (forall x, In x (all_valid W) -> valid_b W x = true) /\
+  length (all_valid ex_two_weighted_sem) = 32 /\ length (all_valid W) = 162 /\
+  (forall s, count_over_all ex_two_weights s (all_valid W) <= name_mult_all ex_two_weighted_sem ex_two_weights s) /\
+  (let sols := all_valid W in map (fun s => count_over_all ex_two_weights s sols) (all_valid ex_two_weighted_sem))
+  = map (name_mult_all ex_two_weighted_sem ex_two_weights) (all_valid ex_two_weighted_sem) /\
+  map (name_mult_all ex_two_weighted_sem ex_two_weights) (all_valid ex_two_weighted_sem)
+  = [4; 4; 8; 8; 8; 8; 16; 16; 2; 2; 4; 4; 4; 4; 8; 8; 2; 2; 4; 4; 4; 4; 8; 8; 1; 1; 2; 2; 2; 2; 4; 4].
+Proof. exact ex_name_multiplicity_two. Qed.
+End NameLevel.
